@@ -573,10 +573,29 @@ def run_locale_probe(ctx, fails):
                 out["encoding"], c["mode"], c["err"] or "different document"), case))
 
 
+def other_fs_dir():
+    """a writable directory on a file system other than the one temporary files are created on (serialize(path) stages the text in
+    a temporary file and moves it: across file systems that move is a copy, not a rename), or None"""
+    try:
+        here = os.stat(tempfile.gettempdir()).st_dev
+    except OSError:
+        return None
+    for cand in ("/dev/shm", "/var/tmp", os.path.expanduser("~"), os.getcwd()):
+        try:
+            if os.path.isdir(cand) and os.access(cand, os.W_OK) and os.stat(cand).st_dev != here:
+                return cand
+        except OSError:
+            continue
+    return None
+
+
 def run(ctx, use_model=True):
     g = Gen(ctx.seed * 1000003 + 16)
     fails = []
     scratch = tempfile.mkdtemp(prefix="c16-", dir=os.environ.get("VERIF_SCRATCH", None))
+    far = other_fs_dir()
+    scratch_far = tempfile.mkdtemp(prefix="c16far-", dir=far) if far else None
+    ctx.count("second-file-system-available" if far else "no-second-file-system")
     model_ops, pending = [], []
     try:
         n_docs = ctx.n(12, 80)
@@ -609,12 +628,19 @@ def run(ctx, use_model=True):
                 d, _s = b.random_document(n_records=g.rng.randint(1, 6))
                 doc = w.conts[d]
                 fmts = ["json", "xml", "provn"]
-            one_document(ctx, doc, fmts, scratch, fails, model_ops, pending, i)
+            if scratch_far is not None and i % 4 == 2:
+                # destinations and sources on another file system than the temporary files
+                ctx.count("files-on-another-file-system")
+                one_document(ctx, doc, fmts, scratch_far, fails, model_ops, pending, i)
+            else:
+                one_document(ctx, doc, fmts, scratch, fails, model_ops, pending, i)
         run_locale_probe(ctx, fails)
         if use_model:
             judge_model(ctx, model_ops, pending, fails)
     finally:
         shutil.rmtree(scratch, ignore_errors=True)
+        if scratch_far is not None:
+            shutil.rmtree(scratch_far, ignore_errors=True)
     return fails
 
 
@@ -643,9 +669,13 @@ def replay(ctx, case):
         b.entity("ex:dedans", {"ex:étiquette": "日本"})
     fails = []
     scratch = tempfile.mkdtemp(prefix="c16-")
+    far = other_fs_dir()
+    scratch_far = tempfile.mkdtemp(prefix="c16far-", dir=far) if far else None
     try:
         sub = []
         one_document(ctx, doc, [case["fmt"]], scratch, sub, [], [], "replay")
+        if not sub and scratch_far is not None:
+            one_document(ctx, doc, [case["fmt"]], scratch_far, sub, [], [], "replay")
         for f in sub:
             c = f.replay
             if c.get("recipe") or c.get("fmt") != case["fmt"]:
@@ -654,4 +684,6 @@ def replay(ctx, case):
                 fails.append(Failure(f.kind, case.get("signature") or f.sig, f.desc, case))
     finally:
         shutil.rmtree(scratch, ignore_errors=True)
+        if scratch_far is not None:
+            shutil.rmtree(scratch_far, ignore_errors=True)
     return fails
